@@ -14,6 +14,9 @@ import (
 	"cosmossdk.io/store"
 	"cosmossdk.io/store/metrics"
 	storetypes "cosmossdk.io/store/types"
+	"cosmossdk.io/x/feegrant"
+	feegrantkeeper "cosmossdk.io/x/feegrant/keeper"
+	feegrantmodule "cosmossdk.io/x/feegrant/module"
 	wasmkeeper "github.com/CosmWasm/wasmd/x/wasm/keeper"
 	tmproto "github.com/cometbft/cometbft/proto/tendermint/types"
 	dbm "github.com/cosmos/cosmos-db"
@@ -44,6 +47,7 @@ import (
 	chainparams "github.com/palomachain/paloma/v2/app/params"
 	"github.com/palomachain/paloma/v2/testutil/common"
 	"github.com/palomachain/paloma/v2/util/libwasm"
+	palomamodule "github.com/palomachain/paloma/v2/x/paloma"
 	"github.com/palomachain/paloma/v2/x/tokenfactory"
 	tfbindings "github.com/palomachain/paloma/v2/x/tokenfactory/bindings"
 	tfkeeper "github.com/palomachain/paloma/v2/x/tokenfactory/keeper"
@@ -66,6 +70,9 @@ type env struct {
 	reg       codectypes.InterfaceRegistry
 	authority string
 	wasm      wasmkeeper.Messenger // util/libwasm router in front of the tokenfactory bindings
+	// third round: whole transactions through the real signature-authorisation decorator
+	fg  feegrantkeeper.Keeper
+	dec palomamodule.VerifyAuthorisedSignatureDecorator
 }
 
 func newEnv(t testing.TB) *env {
@@ -78,16 +85,17 @@ func newEnv(t testing.TB) *env {
 	tkeyParams := storetypes.NewTransientStoreKey(paramstypes.TStoreKey)
 	keyTF := storetypes.NewKVStoreKey(tftypes.StoreKey)
 	keyAuthz := storetypes.NewKVStoreKey(authzkeeper.StoreKey)
+	keyFG := storetypes.NewKVStoreKey(feegrant.StoreKey)
 
 	enc := moduletestutil.MakeTestEncodingConfig(
 		auth.AppModuleBasic{}, bank.AppModuleBasic{}, staking.AppModuleBasic{},
-		distribution.AppModuleBasic{}, tokenfactory.AppModuleBasic{}, authzmodule.AppModuleBasic{},
+		distribution.AppModuleBasic{}, tokenfactory.AppModuleBasic{}, authzmodule.AppModuleBasic{}, feegrantmodule.AppModuleBasic{},
 	)
 	cdc := enc.Codec
 
 	db := dbm.NewMemDB()
 	ms := store.NewCommitMultiStore(db, log.NewNopLogger(), metrics.NewNoOpMetrics())
-	for _, k := range []storetypes.StoreKey{keyAcc, keyBank, keyStaking, keyDistro, keyParams, keyTF, keyAuthz} {
+	for _, k := range []storetypes.StoreKey{keyAcc, keyBank, keyStaking, keyDistro, keyParams, keyTF, keyAuthz, keyFG} {
 		ms.MountStoreWithDB(k, storetypes.StoreTypeIAVL, db)
 	}
 	ms.MountStoreWithDB(tkeyParams, storetypes.StoreTypeTransient, db)
@@ -144,6 +152,9 @@ func newEnv(t testing.TB) *env {
 		keyTF: keyTF, keyAuthz: keyAuthz, cdc: cdc, reg: enc.InterfaceRegistry, authority: authority}
 	// app.go buildWasmMessageDecorator: the libwasm router; only the tokenfactory messenger is wired
 	// here (a token_factory_msg never reaches the other three)
+	// app.go: feegrant keeper over the account keeper; ante.go: the decorator asks it AllowancesByGranter
+	e.fg = feegrantkeeper.NewKeeper(cdc, runtime.NewKVStoreService(keyFG), ak).SetBankKeeper(bk)
+	e.dec = palomamodule.NewVerifyAuthorisedSignatureDecorator(e.fg)
 	e.wasm = libwasm.NewRouterMessageDecorator(log.NewNopLogger(), nil, nil, nil,
 		tfbindings.NewMessenger(&e.bk, &e.tk))(nil)
 	return e
